@@ -539,7 +539,11 @@ def decorator_func(program: Program, dname: str):
     import dataclasses
 
     d = program.func("states", dname)
-    return dataclasses.replace(d, node=inline_private_helpers(d))
+    # value-preserving guards around the stored value (the aliasing guard of fix F23) stay calls: they do not change
+    # which keys are stored or when
+    smod = next(mm for nm, mm in program.modules.items() if nm.split(".")[-1] == "states")
+    guards = frozenset(nm for nm, fn in smod.functions.items() if any(isinstance(c, ast.Call) and call_name(c) in ("np.may_share_memory", "np.shares_memory") for c in ast.walk(fn.node)))
+    return dataclasses.replace(d, node=inline_private_helpers(d, keep=guards))
 
 
 def wrapper_cross_call_state(program: Program):
